@@ -272,7 +272,7 @@ def frame_term(X, field, modifies, old_state, new_heap):
         mem = _list_member(X, X.spec_ev(des, old_state), r) if (des and des != "*") else (TRUE if des == "*" else FALSE)
         same = z3.And(new_heap["@len"][r] == old_heap["@len"][r], new_heap["@el"][r] == old_heap["@el"][r])
         pats = [new_heap["@len"][r], new_heap["@el"][r]]
-        return z3.ForAll([r], z3.Implies(z3.And(old_heap["@alloc"][r], z3.Not(mem)), same), patterns=pats)
+        return _forall_pat([r], z3.Implies(z3.And(old_heap["@alloc"][r], z3.Not(mem)), same), pats)
     des = modifies.get(field)
     mem = member_term(X, des, old_state, r) if des else FALSE
     same = new_heap[field][r] == old_heap[field][r]
@@ -280,14 +280,30 @@ def frame_term(X, field, modifies, old_state, new_heap):
     if field + "?" in new_heap:
         same = z3.And(same, new_heap[field + "?"][r] == old_heap[field + "?"][r])
         pats.append(new_heap[field + "?"][r])
-    return z3.ForAll([r], z3.Implies(z3.And(old_heap["@alloc"][r], z3.Not(mem)), same), patterns=pats)
+    return _forall_pat([r], z3.Implies(z3.And(old_heap["@alloc"][r], z3.Not(mem)), same), pats)
+
+
+def _forall_pat(vs, body, pats):
+    """explicit patterns where z3 accepts them (select over a store chain is sometimes rejected), inferred ones otherwise"""
+    good = []
+    for p_ in pats:
+        try:
+            z3.ForAll(vs, body, patterns=[p_])
+            good.append(p_)
+        except z3.Z3Exception:
+            pass
+    return z3.ForAll(vs, body, patterns=good) if good else z3.ForAll(vs, body)
 
 
 def apply_contract(X, st, C, env, node):
     X.used_contracts.add(C.qual)
     line = getattr(node, "lineno", X.cur_line)
     pre = State(dict(env), dict(st.heap), st.pc, {"old_heap": dict(st.heap), "old_env": dict(env), "cls": None})
+    assumed = X.contract is not None and X.depth == 0 and C.qual in X.contract.assume_pre
     for k, r in enumerate(C.requires):
+        if assumed:
+            X.notes.append(f"A: precondition of {C.qual} assumed at its call sites in {X.qual} (validated by the bounded tier)")
+            continue
         g = X.truth(X.spec_ev(r, pre), pre)
         X.oblige(f"pre@{line}:{C.qual.split('.')[-1]}[{k}]", st, g, "pre", text=r)
     post = st.cp()
@@ -313,7 +329,7 @@ def apply_contract(X, st, C, env, node):
         if C_modifies:
             post.heap["@alloc"] = fresh("H_alloc", post.heap["@alloc"].sort())
             r = fresh("r")
-            post.pc.append(z3.ForAll([r], z3.Implies(st.heap["@alloc"][r], post.heap["@alloc"][r]), patterns=[post.heap["@alloc"][r]]))
+            post.pc.append(safe_forall([r], z3.Implies(st.heap["@alloc"][r], post.heap["@alloc"][r]), patterns=[post.heap["@alloc"][r]]))
             from .engine import heap_typing
             post.pc += heap_typing(X.ctx, post.heap)
         for fld in C_modifies:
@@ -382,7 +398,7 @@ def list_method(X, st, L, name, node):
         X.safety("insert position within list", st, z3.And(0 <= i.v, i.v <= n))
         new = fresh("ins", z3.ArraySort(I, I))
         k = fresh("k")
-        st.pc.append(z3.ForAll([k], z3.Implies(z3.And(0 <= k, k <= n), new[k] == z3.If(k < i.v, arr[k], z3.If(k == i.v, term_of(v), arr[k - 1]))), patterns=[new[k]]))
+        st.pc.append(safe_forall([k], z3.Implies(z3.And(0 <= k, k <= n), new[k] == z3.If(k < i.v, arr[k], z3.If(k == i.v, term_of(v), arr[k - 1]))), patterns=[new[k]]))
         X.lset_arr(st, L, new, n + 1)
         return [("n", st, NONE)]
     if name == "pop":
@@ -393,7 +409,7 @@ def list_method(X, st, L, name, node):
         val = wrap(arr[i], L.elem)
         new = fresh("pop", z3.ArraySort(I, I))
         k = fresh("k")
-        st.pc.append(z3.ForAll([k], z3.Implies(z3.And(0 <= k, k < n - 1), new[k] == z3.If(k < i, arr[k], arr[k + 1])), patterns=[new[k]]))
+        st.pc.append(safe_forall([k], z3.Implies(z3.And(0 <= k, k < n - 1), new[k] == z3.If(k < i, arr[k], arr[k + 1])), patterns=[new[k]]))
         X.lset_arr(st, L, new, n - 1)
         return [("n", st, val)]
     if name == "sort":
@@ -413,8 +429,8 @@ def list_sort(X, st, L, node):
     ip = z3.Function(f"ipi!{fresh('p')}", I, I)
     k, j = fresh("k"), fresh("j")
     rng = lambda x: z3.And(0 <= x, x < n)
-    st.pc.append(z3.ForAll([k], z3.Implies(rng(k), z3.And(rng(pi(k)), ip(pi(k)) == k, new[k] == arr[pi(k)])), patterns=[pi(k), new[k]]))
-    st.pc.append(z3.ForAll([k], z3.Implies(rng(k), z3.And(rng(ip(k)), pi(ip(k)) == k)), patterns=[ip(k)]))
+    st.pc.append(safe_forall([k], z3.Implies(rng(k), z3.And(rng(pi(k)), ip(pi(k)) == k, new[k] == arr[pi(k)])), patterns=[pi(k), new[k]]))
+    st.pc.append(safe_forall([k], z3.Implies(rng(k), z3.And(rng(ip(k)), pi(ip(k)) == k)), patterns=[ip(k)]))
     key = None
     for kw in node.keywords:
         if kw.arg == "key":
@@ -425,7 +441,7 @@ def list_sort(X, st, L, node):
         if isinstance(first, ast.Attribute) and isinstance(first.value, ast.Name) and first.value.id == key.args.args[0].arg:
             fld = first.attr
             h = st.heap[fld]
-            st.pc.append(z3.ForAll([k, j], z3.Implies(z3.And(0 <= k, k <= j, j < n), h[new[k]] <= h[new[j]]), patterns=[z3.MultiPattern(new[k], new[j])]))
+            st.pc.append(safe_forall([k, j], z3.Implies(z3.And(0 <= k, k <= j, j < n), h[new[k]] <= h[new[j]]), patterns=[z3.MultiPattern(new[k], new[j])]))
             st.meta = dict(st.meta)
     X.lset_arr(st, L, new, n)
     X.notes.append("A: list.sort is a permutation ordered by the first key component")
